@@ -137,6 +137,23 @@ def corpus():
     return out
 
 
+# evaluations that FAIL (at compile time inside nested functions, at run time, by a limit): they are
+# cases themselves (their error must be the same under every variant) and, above all, they are what
+# "other contexts evaluated earlier in the same process" looks like in real use
+FAILING = [
+    ("fail:break-in-inner-fn", "var kk1 = 5; function oo1(aa1, bb1){ var cc1 = 1; function ii1(dd1){ break; } return cc1; } oo1(1,2);"),
+    ("fail:continue-in-nested-arrow", "function oo2(aa2){ var ll2 = [1,2]; return ll2.map((xx2) => { function deep2(){ continue; } return xx2; }); } oo2(1);"),
+    ("fail:forof-member-target", "function oo3(aa3, bb3){ var cc3 = {}; function ii3(xs3){ for (cc3.p of xs3) {} } ii3([1]); } oo3(1,2);"),
+    ("fail:syntax-in-inner-fn", "function oo4(aa4){ function ii4(bb4){ var = ; } } 1;"),
+    ("fail:throw-in-closure", "function oo5(aa5){ var cc5 = aa5 * 2; return function(){ throw new Error('boom' + cc5); }; } oo5(21)();"),
+    ("fail:typeerror-in-callback", "function oo6(aa6){ return [1,2].map(function(xx6){ return aa6.nope.deeper; }); } oo6({});"),
+    ("fail:reference-in-getter", "var gg7 = {get pp7(){ return notDefined7 + 1; }}; gg7.pp7;"),
+    ("fail:deep-recursion", "function rr8(nn8){ return 1 + rr8(nn8 + 1); } rr8(0);", {"memory_limit": 20000}),
+    ("fail:loop-forever", "var ww9 = 0; while(true){ ww9++; }", {"time_limit_work": 20000}),
+    ("fail:regex-syntax", "var rr10 = new RegExp('(');"),
+]
+
+
 def n_generated(tier):
     return 160 if tier == "quick" else 1500
 
@@ -146,7 +163,10 @@ def cases(seed, tier):
     for i in range(n_generated(tier)):
         rng = substream(seed, "c15prog", i)
         cs.append(("gen:%d" % i, G15(rng).program()))
-    return cs + corpus()
+    return cs + corpus() + [(f[0], f[1]) for f in FAILING]
+
+
+_FAIL_CFG = {f[0]: f[2] for f in FAILING if len(f) > 2}
 
 
 def variants(seed, tier):
@@ -165,7 +185,7 @@ def variants(seed, tier):
 
 
 # ------------------------------------------------------------------ worker (fresh interpreter, hash seed from the environment)
-def eval_case(src, variant, rng):
+def eval_case(src, variant, rng, cid=None):
     from microjs import Context
     W.reset(tick=variant["tick"], epoch=variant["epoch"], wall_epoch=variant["wall_epoch"])
     track = OffsetTrack()
@@ -175,7 +195,11 @@ def eval_case(src, variant, rng):
         def wj():
             W.S.wall_off += rng.choice((-1e6, -3.0, 7200.0))
         W.schedule(rng.randrange(50, 3000), wj)
-    ctx = Context(time_limit=variant["time_limit"])
+    cfg = _FAIL_CFG.get(cid, {})
+    tl = variant["time_limit"]
+    if "time_limit_work" in cfg:
+        tl = cfg["time_limit_work"] * variant["tick"]     # the same position in the execution under every tick
+    ctx = Context(time_limit=tl, memory_limit=cfg.get("memory_limit"))
     log = []
     ctx.set("log", lambda *a: log.append([W.canon(x) for x in a]))
     old = sys.stdout
@@ -203,12 +227,16 @@ def worker(seed, tier, variant, only=None):
         if variant["neighbours"] and only is None:
             # other contexts evaluate other programs before this one
             for _ in range(rng.randrange(0, 3)):
-                ocid, osrc = cs[rng.randrange(len(cs))]
+                if rng.random() < 0.5:
+                    ff = FAILING[rng.randrange(len(FAILING))]
+                    ocid, osrc = ff[0], ff[1]
+                else:
+                    ocid, osrc = cs[rng.randrange(len(cs))]
                 try:
-                    eval_case(osrc, variant, rng)
+                    eval_case(osrc, variant, rng, ocid)
                 except Exception:
                     pass
-        r = eval_case(src, variant, rng)
+        r = eval_case(src, variant, rng, cid)
         out[cid] = hashlib.sha256(json.dumps(r, sort_keys=True, default=repr).encode()).hexdigest()
         if only is not None:
             full[cid] = r
